@@ -29,7 +29,7 @@ func init() {
 		ID:         "C26",
 		Level:      "other",
 		Technique:  "call-graph SCC recursion-guard, CFG dominance of duplicate/oneof tests, error-drop discipline (static)",
-		Explain:    "Decides structural necessary conditions of C26 on every instance in the JSON/text decoders: (1) every input-driven recursion cycle is cut by a call site dominated by a depth decrement-and-check (or a reviewed bounding idiom); (2) explicit-stack skipping compares its counter to the limit after each push; (3) the singular-field write in both unmarshalMessage functions is dominated by the duplicate-field and oneof rejections and the seen sets are updated; (4) no decoder-method error is dropped; (5) set.Ints splits at 64 consistently; (6) the JSON tokenizer's sequencing switch accepts exactly the JSON follow relation in every state (so structurally malformed documents are rejected, not skipped).",
+		Explain:    "Decides structural necessary conditions of C26 on every instance in the JSON/text decoders: (1) every input-driven recursion cycle is cut by a call site dominated by a depth decrement-and-check (or a reviewed bounding idiom); (2) explicit-stack skipping compares its counter to the limit after each push; (3) the singular-field write in both unmarshalMessage functions is dominated by the duplicate-field and oneof rejections and the seen sets are updated; (4) no decoder-method error is dropped; (5) set.Ints splits at 64 consistently; (6) the JSON tokenizer's sequencing switch accepts exactly the JSON follow relation in every state (so structurally malformed documents are rejected, not skipped). The text number scanner is shown by the same abstract interpretation (length interval and look-ahead sets, mode flags tracked exactly, helper skips treated as arbitrary) never to index or re-slice beyond the established length (R-SCAN-TEXT-NUMBER-BOUNDS).",
 		NotCovered: "panic freedom in general (index arithmetic), and the behaviour on any concrete input: only the listed structural clauses are decided.",
 		Quick:      all("./encoding/protojson", "./encoding/prototext"),
 		Thorough:   all("./..."),
@@ -53,6 +53,7 @@ func init() {
 					"internal/encoding/json.(*Decoder).Read": "token was already obtained by Peek/validated by a pre-scan; a failing Read does not advance, so the next Read reports the same error",
 					"internal/encoding/text.(*Decoder).Read": "token was already obtained by Peek; a failing Read does not advance, so the next Read reports the same error",
 				}, 40)
+			c.ruleScanner("R-SCAN-TEXT-NUMBER-BOUNDS", scannerSpec{key: "internal/encoding/text.parseNumber", what: "text-format number", boundsOnly: true})
 			c.ruleSetInts()
 			c.ruleJSONFollow("R-JSON-FOLLOW")
 		},
